@@ -338,7 +338,8 @@ def base_cfgs(level, ctx):
         cfgs.append(dict(sampler="ins", model="vec", seed=seed, flows="fake"))
     cfgs.append(dict(sampler="ns", model="scalar", seed=seeds[0], max_iteration=120))
     # reparameterisations declared on the model (per parameter); the same configuration objects serve every run of a process
-    cfgs.append(dict(sampler="ns", model="vecr", seed=seeds[0], max_iteration=120, edge=True))
+    cfgs.append(dict(sampler="ns", model="vecr", seed=seeds[0], max_iteration=120, edge=True, flowcfg="odd", name="odd-blocks"))
+    cfgs.append(dict(sampler="ns", model="vec", seed=seeds[0], max_iteration=120, edge=True, flowcfg="old", name="old-style-config"))
     cfgs.append(dict(sampler="ins", model="vec", seed=seeds[-1], flows="real"))
     if level != "quick":
         cfgs.append(dict(sampler="ins", model="scalar", seed=seeds[0], flows="fake"))
